@@ -179,8 +179,14 @@ func (d *Decoder) decodeSet(mem MemCache, msg *Message) error {
 		}
 	}
 
-	// the next set should be greater than 4 bytes otherwise that's padding
-	for err == nil && setHeader.Length > uint16(d.reader.ReadCount()-startCount) && d.reader.Len() > 4 && setHeader.Length-uint16(d.reader.ReadCount()-startCount) > 4 {
+	// what is left of a set is padding once it is shorter than the shortest record
+	// the set can hold (RFC 7011 3.3.1): the template's record length for a data set,
+	// more than a template record header otherwise
+	minLen := 5
+	if setHeader.SetID > 255 && err == nil {
+		minLen = tr.minRecordLen()
+	}
+	for err == nil && setHeader.Length > uint16(d.reader.ReadCount()-startCount) && d.reader.Len() >= minLen && int(setHeader.Length-uint16(d.reader.ReadCount()-startCount)) >= minLen {
 		if setID := setHeader.SetID; setID == 2 || setID == 3 {
 			// Template record or template option record
 
@@ -477,6 +483,32 @@ func (tr *TemplateRecord) unmarshalOpts(r *reader.Reader) error {
 		tr.FieldSpecifiers = append(tr.FieldSpecifiers, tf)
 	}
 	return nil
+}
+
+// minRecordLen returns the length of the shortest data record the template
+// describes: the sum of the field lengths, a variable-length field counting
+// for its one-octet length prefix
+func (tr TemplateRecord) minRecordLen() int {
+	n := 0
+	for _, f := range tr.ScopeFieldSpecifiers {
+		n += f.minLen()
+	}
+	for _, f := range tr.FieldSpecifiers {
+		n += f.minLen()
+	}
+	if n < 1 {
+		n = 1
+	}
+	return n
+}
+
+func (f TemplateFieldSpecifier) minLen() int {
+	if f.Length == 65535 {
+		if m, ok := InfoModel[ElementKey{f.EnterpriseNo, f.ElementID}]; ok && (m.Type == String || m.Type == OctetArray) {
+			return 1
+		}
+	}
+	return int(f.Length)
 }
 
 func (d *Decoder) getDataLength(fieldSpecifierLen uint16, t FieldType) (uint16, error) {
